@@ -9,6 +9,7 @@ import M3d.Lemmas.ParamOutside
 import M3d.Lemmas.ParamQT
 import M3d.Lemmas.ParamSparse
 import M3d.Lemmas.ParamCG
+import M3d.Lemmas.ParamMirror
 import Mathlib.Algebra.Module.LinearMap.Basic
 import Mathlib.Tactic.NormNum
 import Mathlib.Algebra.Order.Field.Rat
@@ -532,6 +533,73 @@ theorem mapfn_barycentric_roundtrip (u : Tri2 K) (t : Tri3 K) (α β γ : K) (hs
       ⟨α * t.a.x + β * t.b.x + γ * t.c.x, α * t.a.y + β * t.b.y + γ * t.c.y, α * t.a.z + β * t.b.z + γ * t.c.z⟩ := by
   have h := bary2_roundtrip u α β γ hsum (by simpa [Tri2.orient, orient] using hdet)
   exact ⟨h, by rw [h, atBary3_eq]⟩
+
+/-- **… also when the UV corners run clockwise.**  The round trip above asks for a non-degenerate UV
+triangle, not for a counter-clockwise one: for a mirrored chart (V pointing down, a U-mirrored half of
+a symmetric model) or a triangle stored with its corners the other way round, `Barycentric` returns
+the weights `(α, β, γ)` *in the stored corner order*, and `AtBarycentric` of the 3-D triangle — same
+stored order — is `αA + βB + γC`. -/
+theorem mapfn_clockwise_roundtrip (u : Tri2 K) (t : Tri3 K) (α β γ : K) (hsum : α + β + γ = 1)
+    (hcw : u.orient < 0) :
+    bary2 u (atBary2 u (α, β, γ)) = (α, β, γ) ∧
+    atBary3 t (bary2 u (atBary2 u (α, β, γ))) =
+      ⟨α * t.a.x + β * t.b.x + γ * t.c.x, α * t.a.y + β * t.b.y + γ * t.c.y, α * t.a.z + β * t.b.z + γ * t.c.z⟩ :=
+  mapfn_barycentric_roundtrip u t α β γ hsum (ne_of_lt hcw)
+
+example : (⟨⟨0, 0⟩, ⟨0, 1⟩, ⟨1, 0⟩⟩ : Tri2 Rat).orient < 0 ∧
+    bary2 (⟨⟨0, 0⟩, ⟨0, 1⟩, ⟨1, 0⟩⟩ : Tri2 Rat) ⟨1 / 4, 1 / 2⟩ = (1 / 4, 1 / 2, 1 / 4) := by decide +kernel
+
+omit [LinearOrder K] [IsStrictOrderedRing K] in
+/-- **The answer does not depend on how the chart lies in the UV plane.**  Send a UV triangle and the
+query through the same invertible affine map `f` of the plane — a mirror (`det f = −1`), a rotation,
+the rescaling of `ToBounds`, any composition: `Triangle.Barycentric` computes the same three weights,
+so `MapFn` interpolates the same 3-D point.  In particular a mirrored map must answer the mirrored
+query with the point the original map gives. -/
+theorem mapfn_barycentric_affine_invariant (f : Aff2 K) (hf : f.det ≠ 0) (u : Tri2 K) (t : Tri3 K) (p : V2 K) :
+    bary2 (Tri2.mapAff f u) (f.apply p) = bary2 u p ∧
+    atBary3 t (bary2 (Tri2.mapAff f u) (f.apply p)) = atBary3 t (bary2 u p) := by
+  rw [bary2_mapAff f hf]; exact ⟨rfl, rfl⟩
+
+/-- **A mirrored map gives the same answers (whole containment branch).**  For the V mirror
+`v ↦ c − v` (`c = 1`: image convention), the U mirror `u ↦ c − u` and the transposition `u ↔ v` — they
+generate the symmetries of the square — `MapFn` of the mirrored map at the mirrored query returns the
+same 3-D point and the same triangle index as `MapFn` of the original map at the original query:
+the bounding-box pre-test, the containment test and the weights all agree, for every list of UV
+triangles (any orientation, any order) and every query. -/
+theorem mapfn_mirrored_map_same_answer (c : K) (uv : List (Tri2 K)) (t3 : List (Tri3 K)) (p : V2 K) :
+    mapFn (uv.map (Tri2.mapAff (Aff2.mirrorV c))) t3 ((Aff2.mirrorV c).apply p) = mapFn uv t3 p ∧
+    mapFn (uv.map (Tri2.mapAff (Aff2.mirrorU c))) t3 ((Aff2.mirrorU c).apply p) = mapFn uv t3 p ∧
+    mapFn (uv.map (Tri2.mapAff Aff2.transpose)) t3 ((Aff2.transpose (K := K)).apply p) = mapFn uv t3 p :=
+  ⟨mapFn_mapAff _ (by rw [det_mirrorV]; norm_num) (inBounds2_mirrorV c) uv t3 p,
+   mapFn_mapAff _ (by rw [det_mirrorU]; norm_num) (inBounds2_mirrorU c) uv t3 p,
+   mapFn_mapAff _ (by rw [det_transpose]; norm_num) inBounds2_transpose uv t3 p⟩
+
+example : mapFn [(⟨⟨0, 1⟩, ⟨1, 1⟩, ⟨0, 0⟩⟩ : Tri2 Rat)] [⟨⟨0, 0, 0⟩, ⟨4, 0, 0⟩, ⟨0, 8, 0⟩⟩] ⟨1 / 4, 1 / 2⟩ =
+      some (⟨1, 4, 0⟩, 0) ∧
+    mapFn [(⟨⟨0, 0⟩, ⟨1, 0⟩, ⟨0, 1⟩⟩ : Tri2 Rat)] [⟨⟨0, 0, 0⟩, ⟨4, 0, 0⟩, ⟨0, 8, 0⟩⟩] ⟨1 / 4, 1 / 2⟩ =
+      some (⟨1, 4, 0⟩, 0) := by decide +kernel
+
+/-- **The weights belong to the stored corner order.**  Exchanging corners 1 and 2 of the UV triangle
+exchanges the weights 1 and 2.  Applied to the 3-D triangle with the same two corners exchanged this
+is the same 3-D point (a consistently relabelled map is the same map); applied to the 3-D triangle in
+its ORIGINAL order it is the point moved by `(w₂ − w₁)·(B − C)` — a different point unless the query
+lies on the median through corner 0 or `B = C`.  So a lookup structure that reorders the corners of a
+clockwise UV triangle has to reorder the 3-D corners as well. -/
+theorem mapfn_weights_follow_corner_order (u : Tri2 K) (t : Tri3 K) (p : V2 K) :
+    bary2 u.flip p = ((bary2 u p).1, (bary2 u p).2.2, (bary2 u p).2.1) ∧
+    atBary3 t.flip (bary2 u.flip p) = atBary3 t (bary2 u p) ∧
+    atBary3 t (bary2 u.flip p) =
+      ⟨(atBary3 t (bary2 u p)).x + ((bary2 u p).2.2 - (bary2 u p).2.1) * (t.b.x - t.c.x),
+       (atBary3 t (bary2 u p)).y + ((bary2 u p).2.2 - (bary2 u p).2.1) * (t.b.y - t.c.y),
+       (atBary3 t (bary2 u p)).z + ((bary2 u p).2.2 - (bary2 u p).2.1) * (t.b.z - t.c.z)⟩ := by
+  refine ⟨bary2_flip u p, ?_, ?_⟩
+  · rw [bary2_flip]
+    exact atBary3_flip t _ _ _
+  · rw [bary2_flip]
+    obtain ⟨w0, w1, w2⟩ := bary2 u p
+    rw [atBary3_eq, atBary3_eq]
+    simp only [V3.mk.injEq]
+    refine ⟨?_, ?_, ?_⟩ <;> ring
 
 omit [IsStrictOrderedRing K] in
 /-- `findContains` only returns a triangle of the list whose computed barycentric coordinates of
